@@ -93,6 +93,9 @@ def handleFD (st : St) (n : Nat) (toks : List String) : Result := Id.run do
   if hang != "0" then
     let r := fail st n "C13" "feed cycle did not stop when its context ended"
     st := r.st; outs := outs ++ r.out
+  if (get "late").getD "0" != "0" then
+    let r := fail st n "C13" s!"the feeder went on calling the witness / the log after its context was cancelled ({(get "late").getD "?"} calls began afterwards)"
+    st := r.st; outs := outs ++ r.out
   let v := mkVerifier st.vtab false vname vhash vid
   let submit := (Cp.parseCheckpoint cp origin v []).map (·.1)
   let calls := if icalls == "" then [] else icalls.splitOn ";"
